@@ -65,9 +65,9 @@ func genC06(t *rapid.T) *c06Case {
 		switch k := n(6, "decl"); {
 		case i == 0 && k < 4:
 			r.decl = "" // a declaring root document always wins; keep that the minority
-		case k < 3:
+		case k < 4:
 			r.decl = "dynamic"
-		case k == 3:
+		case k == 4:
 			r.decl = "plain"
 		}
 		r.atRoot = n(3, "atroot") == 0
@@ -125,7 +125,7 @@ func genC06(t *rapid.T) *c06Case {
 	props := jv.ObjV()
 	for p := 0; p < npaths; p++ {
 		var path c06Path
-		L := n(4, "pathlen")
+		L := n(5, "pathlen")
 		cur := 0
 		// sequence of resources (may revisit)
 		// restriction (a) of DESIGN.md 3.5: a Loader document cannot name a resource embedded in
